@@ -34,7 +34,9 @@ def run(tier, rep):
     for dd in sorted(glob.glob(str(lib.REPO / "test" / "bytecode_*"))):
         if "dropbox" in dd:
             continue
-        fl = sorted(glob.glob(dd + "/*.py[co]"))
+        # files that are about constants first (floats, complex, text, big ints: what a writer can get wrong per version)
+        rich = ("float", "complex", "unicode", "const", "long", "integers", "string")
+        fl = sorted(glob.glob(dd + "/*.py[co]"), key=lambda f: (0 if any(w in os.path.basename(f).lower() for w in rich) else 1, f))
         files += fl[: (2 if quick else 8)]
     outdir = d / "written"
     jobs, outs = [], []
